@@ -150,6 +150,9 @@ OuterLoop:
 					break ArgLoop
 				case 'p':
 					// Pointer address, new in Lua 5.4
+					if len(args) <= j {
+						return "", errNotEnoughValues
+					}
 					switch v := values[j]; v.Type() {
 					case rt.BoolType, rt.FloatType, rt.IntType, rt.NilType:
 						outFormat[i] = 's'
@@ -200,6 +203,11 @@ OuterLoop:
 					// Unrecognised verbs
 					return "", errors.New("invalid format string")
 				}
+			}
+			if i >= len(format) {
+				// The format ends in the middle of a conversion specification
+				// (e.g. "%" or "%5")
+				return "", errors.New("invalid format string")
 			}
 			args[j] = arg
 			j++
